@@ -47,7 +47,7 @@ BOUNDS = {
     "+ SSO/GTO under Kepler + SSO/Sgp4/600 s; pairs: all 276 pairs on ISS-like/Kepler/180 s; all-together on 4 orbits x 4 propagators; "
     "histories: depth<=1 prefixes for each single listener (ISS-like/Kepler), depth<=2 for a 6-listener set (Kepler, KeplerNum; depth<=1 Sgp4, Ephem); "
     "interleaved create/consume scripts (all admissible orders of create A, create B, [half A], drain A, drain B + 3 three-iterator scripts) "
-    "x 4 propagators; a sample placed -1/0/+1 us from an event date (5 listeners x 4 propagators); visibility streams 11 worlds + 17 calls with "
+    "x 4 propagators; a sample placed -1/0/+1 us from an event date (5 listeners x 4 propagators); visibility streams 11 worlds + 11 calls (ISS-like/Kepler/180 s) with "
     "additional listeners passed as events=<Listener>, events=[...], listeners=[...]+events=True, listeners=[...] only; span 2 revolutions "
     "(histories: 1)",
     "thorough": "singles: 24 x 4 orbits x 4 propagators x steps {30,60,180,600} (HEO: {60,180,600}) (+ call mode 'dates' at 180/600 s); "
@@ -1050,11 +1050,16 @@ def check_visibility(case, t):
         else:
             hidden += 1
     if [e for e in got_events if e not in opt_events] != [e for e in exp_events if e not in opt_events]:
-        below = [e for e in got_events if e not in exp_events]
-        sig = "visibility/events" if not extra else "visibility/extra-events/" + ("below-horizon" if below else "missing")
+        plain = set((us_of(x.date), str(x.event.info)) for x in allev)
+        unexpected = [e for e in got_events if e not in exp_events]
+        below = [e for e in unexpected if e in plain]  # genuine events of the additional listeners, but out of view
+        bogus = [e for e in unexpected if e not in plain]  # not events of the plain iteration with the same listeners at all
+        sig = "visibility/events" if not extra else "visibility/extra-events/" + (
+            "below-horizon" if below else "not-in-plain-iteration" if bogus else "missing")
         t.fail(sig, "the visibility stream contains the above-horizon sample points plus the AOS/LOS/MAX (and mask) events of the "
                "station; events of additional listeners only while the satellite is in view", case, exp_events[:10], got_events[:10],
-               f"how={how} extra={extra}: {len(below)} unexpected (e.g. {below[:3]}), {len([e for e in exp_events if e not in got_events])} missing; "
+               f"how={how} extra={extra}: {len(below)} out-of-view events yielded (e.g. {below[:3]}), {len(bogus)} events the plain iteration with "
+               f"the same listeners does not produce (e.g. {bogus[:3]}), {len([e for e in exp_events if e not in got_events])} missing; "
                f"{hidden} extra events happen below the horizon")
     if extra:
         t.outcome(f"vis {how}: {hidden} hidden / {len(exp_events) - len(evs)} visible extra events")
@@ -1205,12 +1210,10 @@ def cases(tier):
                     continue
                 out.append(dict(kind="vis", orbit=orbit, prop=prop, step=step))
     # visibility streams with additional listeners, handed over in every possible way
-    for orbit, prop, step in (("iss", "kepler", 180), ("mol", "kepler", 600)) if quick else \
+    for orbit, prop, step in (("iss", "kepler", 180),) if quick else \
             (("iss", "kepler", 180), ("mol", "kepler", 600), ("sso", "sgp4", 60), ("gto", "num", 600), ("iss", "sgp4", 60), ("mol", "num", 180)):
         for how, extras in VIS_EXTRA:
             for extra in extras:
-                if quick and orbit == "mol" and how in ("events=L", "listeners-only"):
-                    continue
                 out.append(dict(kind="vis", orbit=orbit, prop=prop, step=step, how=how, extra=extra))
     return out
 
